@@ -37,6 +37,9 @@ Inductive fop := FAdd | FSub | FMul | FDiv.
 
 Inductive dexpr :=
 | XInt (z : Z) | XVar (x : string) | XNilSlice | XNilAny
+| XBool (b : bool)
+| XMember (a x : dexpr)                         (* m[x] for a map[K]bool used as a set, held as the list of its keys *)
+| XIsNil (a : dexpr)                            (* a == nil for an interface / pointer value *)
 | XLen (a : dexpr) | XIdx (a i : dexpr) | XFrom (a : dexpr) | XTo (a : dexpr)
 | XBin (o : GoIR.binop) (a b : dexpr) | XNot (a : dexpr) | XAnd (a b : dexpr) | XOr (a b : dexpr)
 | XSub (a : dexpr) (lo hi : option dexpr)
@@ -148,6 +151,14 @@ Fixpoint deval (g l : denv) (x : dexpr) {struct x} : option dval :=
   | XVar v => vlookup g l v
   | XNilSlice => Some (DL [])
   | XNilAny => Some DNil
+  | XBool b => Some (DB b)
+  | XMember a y =>
+      match deval g l a, deval g l y with
+      | Some (DL m), Some (DI z) =>
+          Some (DB (existsb (fun v => match v with DI w => w =? z | _ => false end) m))
+      | _, _ => None
+      end
+  | XIsNil a => match deval g l a with Some DNil => Some (DB true) | Some _ => Some (DB false) | None => None end
   | XLen a => match deval g l a with Some (DL m) => Some (DI (dlen m)) | _ => None end
   | XIdx a i =>
       match deval g l a, deval g l i with
